@@ -37,7 +37,7 @@ CHECKS = {
     "C03": dyn("Every enumerated case is evaluated through NumPy and through SX and MX functions at compactness 0/1/2; TLC compares each with the specification and the function outputs with the NumPy next states recorded for the same values.", "5/C03"),
     "C04": dyn("Names, sizes and free symbols of every compiled function (compactness -1..3, with/without flows, with declared parameters, SX and MX) are checked by TLC against Compile!LayoutIn/LayoutOut instantiated with the network's own element order; position-only generic arguments are decoded through the specification's layout and every result compared slot by slot.", "5/C04"),
     "C05": dyn("NumPy: the flows every link and origin reports when asked after a step (np.flow) against the specification. Functions: with more_out=True at the three levels (also with symbolic T / capacities / critical densities), TLC checks the reported link and origin flows against the specification and the queue / flow / feed identities on the function's own outputs.", "5/C05"),
-    "C06": build("Every graph reachable through the construction API within the bound: is_valid(False)/(True) on the real network after every replayed transition against the nine conditions stated literally in NetBuild!Valid (verdict, raise-iff-invalid, messages); the returned message list is consumed and the question asked again; in every other history validity is asked after every call; construction calls that raise part-way (None nodes, malformed link descriptions in bulk calls) are calls of the model, with their partial effects.", "5/C06"),
+    "C06": build("Every graph reachable through the construction API within the bound: is_valid(False)/(True) on the real network after every replayed transition against the nine conditions stated literally in NetBuild!Valid (verdict, raise-iff-invalid, messages); the returned message list is consumed and the question asked again; in every other history validity is asked after every call; construction calls that raise part-way (None nodes, malformed link descriptions in bulk calls) are calls of the model, with their partial effects. Second component (Session.tla): the verdict asked in every state of a user session - between steps, after steps that failed, after replacements - replayed and in recorded sessions.", "5/C06"),
     "C07": dyn("For every valid shape in the bound: is_valid accepts, NumPy steps (own variables 'rand'/'empty' and user arrays), SX and MX step and compile at compactness -1..3, shapes match, outputs finite on the defined admissible domain including exact zeros. Second component (Session.tla): every session of construction calls, validation, whole / half-way / late-failing / per-element steps up to the depth bound - whenever the network is valid a whole-network step succeeds, and a network stepped as a whole compiles to a function TLC validates numerically, whatever failed or was replaced before.", "5/C07"),
     "C08": build("All interleavings of mutating calls and reads up to the depth bound: after every replayed transition every lookup and per-node view of the real network equals recomputation from the live graph and the specification's value; the model's own invariant CacheCoherent is checked for the invalidation table. A history-complete profile (no two histories merged) and objects shared between networks cover state hidden outside the model. Construction calls that raise part-way after changing the graph are calls of the model: the lookups must be fresh after them too.", "5/C08"),
     "C09": build("All call sequences up to the bound and all path shapes up to length 4 (quick) / 6 (thorough): graph after each call equals NetBuild's post-state and the declaratively Described graph; malformed paths raise; no non-node object becomes a node; bulk arguments are spelled as list / tuple / generator / zip.", "5/C09"),
@@ -54,7 +54,7 @@ CHECKS = {
     "C18": dyn("Family 'neutral': each case runs against its uncontrolled twin generated by the specification (plain links; swapped ramp variant; unbounded desired flow; infinite limits): equal next states when controls are neutral, next speeds never higher and everything else equal under finite limits; the same relation is an exact theorem on the specification.", "5/C18"),
     "C19": life("All interleavings of whole-network steps, per-element init/step, init-all, late replacements and compilations up to the depth bound: RuntimeError iff the specification's Ready fails (uninitialised, unstepped or stale next states); returned functions have no free symbols and their values equal StepOpt with the parameters of the most recent step. Compiling is an observation: the function at the end of a history that compiled before equals the function of the same history without the earlier compilations. Replayed with distinct names, shared names and recycled object addresses; a history-complete profile covers state hidden inside engines and elements. Second component (Session.tla, the composition of NetBuild with the lifecycle over ARBITRARY graphs): elements added, replaced and re-attached through the construction API between steps, steps that fail half-way or at the last link, per-element steps; RuntimeError iff the specification's Ready fails on the present graph, functions free of free symbols and numerically equal to the step of the network built.", "5/C19"),
 }
-for _p in ("C07", "C19"):
+for _p in ("C06", "C07", "C19"):
     CHECKS[_p]["technique"] += SESS_TECH
 ENGINES = [
     {"name": "dyn", "path": "tla/Real.tla tla/Real.java tla/Laws.tla tla/Metanet.tla tla/Compile.tla tla/DynCases.tla tla/Trace_Dyn.tla harness/dyncheck.py harness/dynrun.py",
@@ -65,7 +65,7 @@ ENGINES = [
     {"name": "life", "path": "tla/Lifecycle.tla tla/MC_Life.tla harness/lifecheck.py harness/liferun.py",
      "serves_properties": ["C12", "C13", "C19"], "kind_free_text": "TLA+ state machine of engine selection / init / step / compile readiness; exhaustive TLC exploration replayed into the code"},
     {"name": "session", "path": "tla/NetBuild.tla tla/Session.tla tla/MC_Session.tla tla/MC_Session.cfg harness/sesscheck.py harness/sessrun.py",
-     "serves_properties": ["C07", "C19"], "kind_free_text": "TLA+ composition of the construction state machine with the element lifecycle over arbitrary graphs; exhaustive TLC exploration of user sessions replayed into the code"},
+     "serves_properties": ["C06", "C07", "C19"], "kind_free_text": "TLA+ composition of the construction state machine with the element lifecycle over arbitrary graphs; exhaustive TLC exploration of user sessions replayed into the code"},
     {"name": "prim", "path": "tla/Laws.tla tla/Prim.tla harness/primcheck.py harness/primrun.py",
      "serves_properties": ["C15", "C17"], "kind_free_text": "scalar laws + TLC-enumerated grids for every engine primitive"},
 ]
